@@ -9,6 +9,9 @@ the handles in ascending order. (The executable model fixes ascending iteration 
 the repetition check of C17 runs every scenario three times with fresh hash states.)
 -/
 import GgrsModel.Model.Inventory
+import GgrsModel.Model.Sites.P2pSession
+import GgrsModel.Model.Sites.Protocol
+import GgrsModel.Model.Sites.SyncTestSession
 import GgrsModel.Model.P2P
 import GgrsModel.Model.SyncTest
 import GgrsModel.Proofs.Monad
